@@ -68,7 +68,7 @@ FileTransport::FileTransport(const char* name, unsigned int latency, bool checkD
   : Transport(name, HOST_LATENCY_MS+latency),
     m_checkDevice(checkDevice),
     m_fd(-1),
-    m_bufSize(((MAX_LEN+1+3)/4)*4), m_bufLen(0) {
+    m_bufSize(((MAX_LEN+1+3)/4)*4), m_bufLen(0), m_bufReturned(false) {
   m_buffer = reinterpret_cast<symbol_t*>(malloc(m_bufSize));
   if (!m_buffer) {
     m_bufSize = 0;
@@ -107,6 +107,7 @@ void FileTransport::close() {
   ::close(m_fd);
   m_fd = -1;
   m_bufLen = 0;  // flush read buffer
+  m_bufReturned = false;
   if (m_listener != nullptr) {
     m_listener->notifyTransportStatus(false);
   }
@@ -140,8 +141,10 @@ result_t FileTransport::read(unsigned int timeout, const uint8_t** data, size_t*
   if (!isValid()) {
     return RESULT_ERR_DEVICE;
   }
-  if (timeout == 0) {
+  if (timeout == 0 || (m_bufLen > 0 && !m_bufReturned)) {
+    // hand out already buffered data first instead of waiting for new data
     if (m_bufLen > 0) {
+      m_bufReturned = true;
       *data = m_buffer;
       *len = m_bufLen;
       return RESULT_OK;
@@ -217,12 +220,16 @@ result_t FileTransport::read(unsigned int timeout, const uint8_t** data, size_t*
   DEBUG_RAW_TRAFFIC_FINAL();
 #endif
   m_bufLen += size;
+  m_bufReturned = true;
   *data = m_buffer;
   *len = m_bufLen;
   return RESULT_OK;
 }
 
 void FileTransport::readConsumed(size_t len) {
+  if (len > 0) {
+    m_bufReturned = false;
+  }
   if (len >= m_bufLen) {
     m_bufLen = 0;
   } else if (len > 0) {
